@@ -193,8 +193,11 @@ class C05Monitor(Monitor):
             n_leaves = sum(len(leaves_of(x, lib)) for x in stored)
             if o.level() != n_leaves:
                 f.fail('C05.a', f'buffer {b} reports level {o.level()} but stores {n_leaves} parts', 'level')
-            if n_leaves > o.capacity:
-                f.fail('C05.b', f'buffer {b} stores {n_leaves} parts, capacity {o.capacity}', 'capacity')
+            cap = f.dspec[b].get('cap')
+            cap = float('inf') if cap is None else cap       # as configured (2.5 means: never more than 2 parts)
+            if n_leaves > o.capacity or n_leaves > cap:
+                f.fail('C05.b', f'buffer {b} stores {n_leaves} parts, configured capacity {cap} (reports {o.capacity})',
+                       'capacity')
             before = self.prev[b]
             ids_after = [id(x) for x in stored]
             ids_before = [id(x) for x in before]
